@@ -186,8 +186,12 @@ def build_pep(spec):
     for i, c in enumerate(spec["pep"]["cons"]):
         cons_objs[(0, i)] = build_cons(c, P, X)
         pep.add_constraint(cons_objs[(0, i)])
-    for m in spec["pep"]["psd"]:
-        pep.add_psd_matrix(build_matrix(m, P, X))
+    # names of LMIs are labels only: several LMIs may share one, or carry the default label of ANOTHER LMI (seed C01-12:
+    # multipliers looked up by name)
+    naming = spec["dual_seed"] % 3
+    for j, m in enumerate(spec["pep"]["psd"]):
+        nm = [None, "lmi", "PSDMatrix_%d" % (j + 2)][naming]
+        pep.add_psd_matrix(build_matrix(m, P, X), name=nm) if nm else pep.add_psd_matrix(build_matrix(m, P, X))
     funcs = []
     for b, blk in enumerate(spec["funcs"]):
         f = pep.declare_function(ConvexFunction)
@@ -196,7 +200,7 @@ def build_pep(spec):
             cons_objs[(b + 1, i)] = build_cons(c, P, X)
             f.add_constraint(cons_objs[(b + 1, i)])
         for m in blk["psd"]:
-            f.add_psd_matrix(build_matrix(m, P, X))
+            f.add_psd_matrix(build_matrix(m, P, X), name="lmi") if naming == 1 else f.add_psd_matrix(build_matrix(m, P, X))
     class_functions = []
     pep._harness_class_functions = class_functions
     for c in spec.get("classes", []):
